@@ -242,6 +242,7 @@ type hostScript struct {
 	Preserve string `json:"preserve"` // "", "true", "false" (any letter case)
 	ViaEnv   bool   `json:"via_env"`  // configured through $ENABLE_KUBERNETES_PROBE / $PRESERVE_HOST instead of the flags
 	Path     string `json:"path"`     // request target; not necessarily in canonical form
+	Verbose  bool   `json:"verbose"`  // -verbose / $VERBOSE: an option that has nothing to do with routing
 	ALPN     string `json:"alpn"`
 	UA       string `json:"ua"`
 }
@@ -255,7 +256,7 @@ func TestVerifWiringC15(t *testing.T) {
 			spell := []string{"", "true", "false", "True", "False", "TRUE", "FALSE"}
 			return hostScript{Probe: rapid.SampledFrom(spell).Draw(t, "probe"), Preserve: rapid.SampledFrom(spell).Draw(t, "preserve"), ViaEnv: rapid.Bool().Draw(t, "env"),
 				ALPN: rapid.SampledFrom([]string{"h2", "http/1.1"}).Draw(t, "alpn"), UA: rapid.SampledFrom([]string{"kube-probe/1.29", "curl/8", "x kube-probe/1"}).Draw(t, "ua"),
-				Path: rapid.SampledFrom([]string{"/p", "/p", "//x", "/a/./b", "/a/../b", "/x//", "/healthz/"}).Draw(t, "path")}
+				Path: rapid.SampledFrom([]string{"/p", "/p", "//x", "/a/./b", "/a/../b", "/x//", "/healthz/"}).Draw(t, "path"), Verbose: rapid.Bool().Draw(t, "verbose")}
 		},
 		Exec: func(s hostScript) *vstat.Violation {
 			var ex rig.Exchange
@@ -276,6 +277,13 @@ func TestVerifWiringC15(t *testing.T) {
 						env["PRESERVE_HOST"] = s.Preserve
 					} else {
 						args = append(args, "-preserve-host="+s.Preserve)
+					}
+				}
+				if s.Verbose {
+					if s.ViaEnv {
+						env["VERBOSE"] = "true"
+					} else {
+						args = append(args, "-verbose")
 					}
 				}
 				p := rig.StartProxy(rig.ProxyOpts{Build: wiredEnv(args, env)})
@@ -314,7 +322,7 @@ func TestVerifWiringC15(t *testing.T) {
 					return vstat.Violf("wiring:xfp|not-https", "%+v: X-Forwarded-Proto %q", s, v)
 				}
 			}
-			colC15.Case(fmt.Sprintf("%+v", s), true, s, "probe:"+strings.ToLower(s.Probe), "preserve:"+strings.ToLower(s.Preserve), fmt.Sprintf("via-env:%v", s.ViaEnv), fmt.Sprintf("canonical-path:%v", s.Path == "/p" || s.Path == "/healthz/"))
+			colC15.Case(fmt.Sprintf("%+v", s), true, s, "probe:"+strings.ToLower(s.Probe), "preserve:"+strings.ToLower(s.Preserve), fmt.Sprintf("via-env:%v", s.ViaEnv), fmt.Sprintf("canonical-path:%v", s.Path == "/p" || s.Path == "/healthz/"), fmt.Sprintf("verbose:%v", s.Verbose))
 			return nil
 		}})
 }
